@@ -58,7 +58,7 @@ def judge_typeform(case, res, steps):
         return "branch_depth: spec %s, library %s" % ((bool(exp["branch"]), exp["mind"]), (bool(b.get("branch")), b.get("branchdepth")))
     if bool(b.get("isregular")) != bool(exp["isreg"]):
         return "purelist_isregular: spec %s, library %s" % (bool(exp["isreg"]), bool(b.get("isregular")))
-    if not exp["hasunion"] and list(b.get("keys", [])) != list(exp["keys"]):
+    if list(b.get("keys", [])) != list(exp["keys"]):
         return "keys: spec %s, library %s" % (exp["keys"], b.get("keys"))
     r = res[1]
     if r.get("ok") != 1:
